@@ -423,7 +423,33 @@ def build_menu(c, sc, node, pool_sl, u):
 
         ser = DOMSerializer.from_schema(schema)
         return [str(ser.serialize_fragment(node.content))] + [str(ser.serialize_node(node.child(i))) for i in range(node.child_count)]
+    def dom_abandoned():
+        """A parse that is abandoned by an exception while nested, equal mark elements are open (a user getAttrs
+        callback returns attrs the node type rejects), and one that completes: neither may leave anything behind in
+        shared objects (Mark.none, the live document)."""
+        from prosemirror.model.from_dom import DOMParser, ParseRule
+
+        seen = []
+
+        def img_attrs(dom_):
+            seen.append(jkey(node.to_json()))  # a callback looking at the live document in mid-parse
+            return {"src": dom_.get("src"), "alt": dom_.get("alt")}
+
+        rules = [ParseRule.from_json({"tag": "img", "node": "image", "getAttrs": img_attrs, "priority": 60}),
+                 *DOMParser.schema_rules(schema)]
+        outs = []
+        for html in ("<p><b><strong>x</strong> y</b> z</p>", "<p><em><i>x <img alt='n'> y</i></em></p>",
+                     "<p><b><strong>pic: <img alt='no source'></strong></b></p>"):
+            try:
+                outs.append(DOMParser(schema, rules).parse(adapters_html(html)))
+            except ValueError:
+                pass
+        before = jkey(node.to_json())
+        if any(x != before for x in seen):
+            raise AssertionError("mid-parse: live document serialised differently during a DOM parse")
+        return outs
     if c.id in ("basic", "list"):
+        add({"op": "DOM parse abandoned inside nested marks"}, dom_abandoned)
         add({"op": "DOM serialise/parse"}, dom)
     elif all(t.spec.get("toDOM") or t.is_text or t is schema.top_node_type for t in schema.nodes.values()):
         add({"op": "DOM serialise"}, dom_only)
@@ -471,6 +497,8 @@ def run_history(c, d, menu_builder, order, res, size):
         except AssertionError as e:
             if "accumulator-shrunk" in str(e):
                 res.violate("c10.accumulator-not-append-only", {"schema": c.id, "doc": d, "op": desc}, str(e), size=size)
+            elif "mid-parse" in str(e):
+                res.violate("c10.mutated-during-parse", {"schema": c.id, "doc": d, "op": desc}, str(e), size=size)
             continue
         except Exception:  # noqa: BLE001  (errors are other properties' business)
             out = None
@@ -510,6 +538,7 @@ def check_mappings(res):
     acts.append(("append_mapping_inverted", lambda m: m.append_mapping_inverted(src)))
     acts.append(("slice", lambda m: m.slice(0, len(m.maps) // 2)))
     acts.append(("slice1", lambda m: m.slice(1) if m.maps else m.slice()))
+    acts.append(("slice-full", lambda m: m.slice(m.from_, m.to)))  # "the maps so far", kept while m grows
     acts.append(("copy", lambda m: m.copy()))
     acts.append(("invert", lambda m: m.invert()))
     acts.append(("map", lambda m: [m.map(2, 1), m.map_result(1, -1).pos]))
